@@ -242,7 +242,7 @@ def gen_case(tape, tier):
             if stress:
                 choices = ["put", "put", "put", "get", "get", "get", "in"]
             if cls == "disk":
-                choices += ["reopen"]
+                choices += ["reopen", "wiped"]
             k = tape.pick(choices, "op")
             if k == "put":
                 nv += 1
@@ -259,6 +259,10 @@ def gen_case(tape, tier):
                 ops.append({"op": k, "key": tape.pick(KEYS, "key")})
             elif k == "reopen":
                 ops.append({"op": "reopen", "max_size": tape.pick([None, 1, 2, 3], "disk-max")})
+            elif k == "wiped":
+                # another user of the directory (a second handle without a front of its own) clears it: this handle's files
+                # are gone, what its in-memory front still holds stays readable until this handle itself is cleared
+                ops.append({"op": "wiped"})
             else:
                 ops.append({"op": k})
         if cls == "lru" and tape.coin(0.3, "reput-oldest"):
@@ -507,6 +511,12 @@ def run_A(case, tape):
                         m.reopen(op["max_size"])
                         _disk_evictions(c, m, op, V, probes)
                         probes["disk_reopen"] = probes.get("disk_reopen", 0) + 1
+                    elif op["op"] == "wiped":
+                        import pipefunc.cache as pc
+
+                        pc.DiskCache(c.cache_dir, max_size=None, with_lru_cache=False).clear()
+                        m.files = {}
+                        probes["disk_wiped_by_another_handle"] = probes.get("disk_wiped_by_another_handle", 0) + 1
                 except (Deadlock, StepCap):
                     raise
                 except Exception as e:  # noqa: BLE001
